@@ -26,9 +26,9 @@ def S(xs):
     return "= {" + ", ".join(json.dumps(x) if isinstance(x, str) else str(x) for x in xs) + "}"
 
 
-def parrun_consts(NN=4, MaxW=3, srcs=("vec", "iterx"), terms=("collect_vec",), nts=(2, 3), css="Cs_1_2", fans="Fans_012"):
+def parrun_consts(NN=4, MaxW=3, srcs=("vec", "iterx"), terms=("collect_vec",), nts=(2, 3), css="Cs_1_2", fans="Fans_012", crashes="NoCrash"):
     return {"MaxW": f"= {MaxW}", "Avail": "= 16", "NN": f"= {NN}", "Srcs": S(srcs), "Terms": S(terms),
-            "Nts": S(nts), "Css": f"<- {css}", "Fans": f"<- {fans}"}
+            "Nts": S(nts), "Css": f"<- {css}", "Fans": f"<- {fans}", "Crashes": f"<- {crashes}"}
 
 
 # per property: list of (name, module, consts, invariants, temporal properties)
@@ -39,9 +39,9 @@ def plan(prop, tier):
     nts = (2, 3) if q else (2, 3, 4)
     P = []
 
-    def par(name, terms, invs, fans="Fans_012", css="Cs_1_2", srcs=("vec", "iterx"), nts_=None, NN_=None, live=True, W_=None):
+    def par(name, terms, invs, fans="Fans_012", css="Cs_1_2", srcs=("vec", "iterx"), nts_=None, NN_=None, live=True, W_=None, crashes="NoCrash"):
         P.append((name, "MC_ParRun.tla",
-                  parrun_consts(NN_ or NN, W_ or W, srcs, terms, nts_ or nts, css, fans),
+                  parrun_consts(NN_ or NN, W_ or W, srcs, terms, nts_ or nts, css, fans, crashes),
                   ["TypeOK"] + invs, ["P_Terminates"] if live else []))
 
     if prop == "C01":
@@ -77,6 +77,8 @@ def plan(prop, tier):
     elif prop == "C13":
         P.append(("ownership tokens, no panic", "MC_Tokens.tla", tokens_consts(q, False), ["TypeOK", "NoDoubleDrop", "NoBadDrop", "NoLeakAtEnd"], []))
     elif prop == "C14":
+        par("protocol with a panicking closure", ("collect_vec", "count", "find"), ["P_PanicPropagates", "P_AtMostOnce", "P_ThreadBound"],
+            fans="Fans_012", crashes="CrashStage1", NN_=(3 if q else 4), nts_=((2, 3) if q else (2, 3, 4)))
         P.append(("ownership tokens with a panicking closure", "MC_Tokens.tla", tokens_consts(q, True), ["TypeOK", "NoDoubleDrop", "NoBadDrop", "PanicPropagates"], ["Finishes"]))
     elif prop == "C15":
         P.append(("runner settings arithmetic", "MC_Settings.tla", {"MaxLen": "= 20" if q else "= 72", "MaxT": "= 9" if q else "= 17"}, ["ChunkPositive", "ThreadsPositive", "NextChunkSane", "MinChunkCoversInput", "AutoChunkIsPowerOfTwo"], []))
@@ -128,6 +130,7 @@ GEN_FAMILIES = {
     "C11": [(("collect_vec", "count"), ("vec", "iterx"), (3,), "Cs_1_2_3", "Fans_012", 4, 3)],
     "C13": [(("collect_vec", "find"), ("vec",), (2, 3), "Cs_1_2", "Fans_find", 3, 3)],
     "C15": [(("collect_vec", "count"), ("vec",), (2, 3), "Cs_min_auto", "Fans_012", 4, 3)],
+    "C14": [(("collect_vec", "count", "find"), ("vec", "iterx"), (2, 3), "Cs_1_2", "Fans_012", 4, 3, "CrashStage1")],
 }
 
 GEN_RE = re.compile(r'^<<"GEN", (".*")>>$')
@@ -143,10 +146,12 @@ def generated_jobs(prop, tier, seed, work):
     jobs, stats = [], {"generated_schedules": 0, "distinct_schedules": 0, "tlc_s": 0.0}
     seen = set()
     t0 = time.time()
-    for fi, (terms, srcs, nts, css, fans, NN, W) in enumerate(fams):
+    for fi, fam in enumerate(fams):
+        (terms, srcs, nts, css, fans, NN, W) = fam[:7]
+        crashes = fam[7] if len(fam) > 7 else "NoCrash"
         cfgp = os.path.join(work, f"gen-{fi}.cfg")
         with open(cfgp, "w") as f:
-            f.write(cfg_text("GSpec", parrun_consts(NN, W, srcs, terms, nts, css, fans), ["Emit"]))
+            f.write(cfg_text("GSpec", parrun_consts(NN, W, srcs, terms, nts, css, fans, crashes), ["Emit"]))
         num = (want // len(fams)) * 3
         rc, out, dt = tlc("Gen_ParRun.tla", cfgp, work, workers=1, timeout=900,
                           extra=["-simulate", f"num={num}", "-depth", "200", "-seed", str(seed)], deque=False)
@@ -260,3 +265,78 @@ def conformance(prop, tier, traces, work):
                                    "first_rejections": list(rej_u.values())[:5], "files_consumed": consumed,
                                    "files": len(outs), "wall_s": round(time.time() - t0, 2),
                                    "note": "applies to scheduled (linearised) runs of programs without eager sites; a rejection is spec-maintenance information, never a verdict"}}
+
+
+# ------------------------------------------------------------------ showing that the binding binds
+
+def _run_events(trace):
+    """yields (run_id, [raw lines]) per program of a trace file"""
+    cur, rid = [], None
+    with open(trace) as f:
+        for line in f:
+            if '"e":"prog"' in line:
+                if cur:
+                    yield rid, cur
+                cur, rid = [], json.loads(line)["run"]
+            cur.append(line)
+    if cur:
+        yield rid, cur
+
+
+def selftest(prop, traces, work):
+    """Corrupts recorded traces and requires the TLA+ side to notice:
+    (1) a terminal result altered -> the property's result clause (if it has one) must fire;
+    (2) the position of a first-closure call altered in a scheduled run -> TraceFull must reject
+        that run at that line;  (3) a worker-end event deleted -> TraceFull must reject."""
+    res = {}
+    result_clauses = {"C01": "collect", "C02": "find", "C03": "reduce", "C04": "count", "C06": "collect_into", "C07": "collect_x"}
+    # (1)
+    done1 = prop not in result_clauses
+    done2 = done3 = False
+    for tf in traces:
+        for rid, lines in _run_events(tf):
+            prog = json.loads(lines[0])
+            evs = [json.loads(l) for l in lines]
+            te = [i for i, e in enumerate(evs) if e["e"] == "te"]
+            if not done1 and te and evs[te[0]]["kind"] in ("col", "cnt", "opt") and prog["p"]["cs"] < 0:
+                e = dict(evs[te[0]])
+                if e["kind"] == "cnt":
+                    e["n"] += 1
+                elif e["rv"]:
+                    e["rv"] = [e["rv"][0] + 1] + e["rv"][1:]
+                else:
+                    continue
+                bad = lines[:te[0]] + [json.dumps(e) + "\n"] + lines[te[0] + 1:]
+                pth = os.path.join(work, "selftest1.ndjson")
+                open(pth, "w").write("".join(bad))
+                v, st = monitor([pth], CLAUSES[prop], work, par=1)
+                res["altered_result_flagged"] = len(v) > 0
+                done1 = True
+            sched = prog["mode"] != "free" and prog["p"]["cs"] < 0
+            calls = [i for i, e in enumerate(evs) if e["e"] == "call" and e.get("a", 0) >= 1 and e["s"] == 1]
+            if sched and not done2 and len(calls) >= 2 and any(e["e"] == "end" and e["dstep"] == -1 for e in evs):
+                pth0 = os.path.join(work, "selftest2a.ndjson")
+                open(pth0, "w").write("".join(lines))
+                c0 = conformance(prop, "quick", [pth0], work)["strict_conformance"]
+                if c0["runs_accepted_by_ParRun"] == 1:
+                    i = calls[len(calls) // 2]
+                    e = dict(evs[i]); e["k"] = e["k"] + 1
+                    bad = lines[:i] + [json.dumps(e) + "\n"] + lines[i + 1:]
+                    pth = os.path.join(work, "selftest2.ndjson")
+                    open(pth, "w").write("".join(bad))
+                    c1 = conformance(prop, "quick", [pth], work)["strict_conformance"]
+                    res["altered_position_rejected"] = c1["runs_rejected"] == 1 and c1["runs_accepted_by_ParRun"] == 0
+                    res["altered_position_rejected_at_line"] = [r["line"] for r in c1["first_rejections"]] == [e["i"]]
+                    done2 = True
+                    wends = [j for j, x in enumerate(evs) if x["e"] == "wend"]
+                    if wends and not done3:
+                        j = wends[0]
+                        bad = lines[:j] + lines[j + 1:]
+                        pth = os.path.join(work, "selftest3.ndjson")
+                        open(pth, "w").write("".join(bad))
+                        c2 = conformance(prop, "quick", [pth], work)["strict_conformance"]
+                        res["deleted_worker_end_rejected"] = c2["runs_rejected"] == 1
+                        done3 = True
+            if done1 and done2 and done3:
+                return res
+    return res
